@@ -43,6 +43,11 @@ type vfcmWorld struct {
 	idleMs int
 	conns  map[int]*vfcmClient
 	base   map[string]int // census before Listen
+	// backend gate: which connection looks a name up (one name per connection), how long the backend holds it
+	nameConn map[string]int
+	hold     map[string]time.Duration
+	entered  chan int
+	exited   chan int
 }
 
 var vfcmCur struct {
@@ -234,6 +239,9 @@ func (w *vfcmWorld) lookup(cl *vfcmClient, root uint64, name string) bool {
 	if cl == nil || cl.dead || cl.raw {
 		return false
 	}
+	w.mu.Lock()
+	w.nameConn[name] = cl.c
+	w.mu.Unlock()
 	w.emit(M{"ev": "cl.send", "c": cl.c, "res": true})
 	res, _ := cl.roundtrip(NFS_PROGRAM, NFS_V3, NFSPROC3_LOOKUP, vfArgsDirOp(root, name), 3*time.Second)
 	if res == "reply" {
@@ -256,10 +264,40 @@ func (w *vfcmWorld) closeClient(cl *vfcmClient) {
 // ---------------------------------------------------------------- world
 
 func vfcmNewWorld(t *testing.T, max, idleMs int, exported bool) *vfcmWorld {
-	w := &vfcmWorld{t: t, ports: map[int]int{}, conns: map[int]*vfcmClient{}, max: max, idleMs: idleMs, raw: exported}
+	w := &vfcmWorld{t: t, ports: map[int]int{}, conns: map[int]*vfcmClient{}, max: max, idleMs: idleMs, raw: exported,
+		nameConn: map[string]int{}, hold: map[string]time.Duration{}, entered: make(chan int, 16), exited: make(chan int, 16)}
 	w.fs = vfNewFS()
-	for i := 0; i < 6; i++ {
+	for i := 0; i < 13; i++ {
 		w.fs.vfPoke(fmt.Sprintf("/g%d", i), "file", []byte("x"), "", 0644)
+	}
+	// the backend gate reports which connection has a request executing in the backend (be.enter / be.exit) and
+	// holds it there for as long as the scenario asks; set once, before anything runs
+	w.fs.Gate = func(op, p string) {
+		if op != "Lstat" || !strings.HasPrefix(p, "/g") {
+			return
+		}
+		w.mu.Lock()
+		c, ok := w.nameConn[p[1:]]
+		d := w.hold[p[1:]]
+		if ok {
+			w.ev = append(w.ev, M{"ev": "be.enter", "c": c})
+		}
+		w.mu.Unlock()
+		if !ok {
+			return
+		}
+		select {
+		case w.entered <- c:
+		default:
+		}
+		if d > 0 {
+			time.Sleep(d)
+		}
+		w.emit(M{"ev": "be.exit", "c": c})
+		select {
+		case w.exited <- c:
+		default:
+		}
 	}
 	w.fs.vfPoke("/d", "D", nil, "", 0755)
 	w.fs.vfPoke("/d/x", "file", []byte("y"), "", 0644)
@@ -426,6 +464,18 @@ func (w *vfcmWorld) flush(tr *vfTrace, reset M) (int, bool) {
 			c := e["c"].(int)
 			la, ok := lastAns[c]
 			e["lastans"] = ok && la == i && la > firstReply[c]
+			// will this request be seen inside the backend (be.enter before the connection's next client event)?
+			slow := false
+			for _, f := range w.ev[i+1:] {
+				if f["c"] == c && (f["ev"] == "cl.reply" || f["ev"] == "cl.dead" || f["ev"] == "cl.send") {
+					break
+				}
+				if f["c"] == c && f["ev"] == "be.enter" {
+					slow = true
+					break
+				}
+			}
+			e["slow"] = slow
 		}
 		tr.Emit(e)
 		n++
@@ -447,12 +497,17 @@ func TestVF_ConnMgr(t *testing.T) {
 	defer tr.Close()
 	hist, events, nontrivial, void := 0, 0, 0, 0
 	var samples []M
-	kinds := []string{"limit", "idle", "random", "export", "stopbusy", "stoprace", "random", "managed"}
-	for h := 0; h < nh; h++ {
+	kinds := []string{"limit", "idle", "random", "export", "stopbusy", "stoprace", "closebusy", "managed", "midcall", "random"}
+	// accepts racing with Stop are a matter of microseconds: a batch of additional (cheap) stoprace histories follows
+	extra := vfEnvInt("VF_STOPRACE", 6)
+	for h := 0; h < nh+extra; h++ {
 		if only >= 0 && h != only {
 			continue
 		}
 		kind := kinds[h%len(kinds)]
+		if h >= nh {
+			kind = "stoprace"
+		}
 		rnd := vfRand(seed, fmt.Sprintf("cm%d", h))
 		var w *vfcmWorld
 		var reset M
@@ -470,6 +525,10 @@ func TestVF_ConnMgr(t *testing.T) {
 			w, reset = vfcmStopRace(t, h, rnd)
 		case "stopbusy":
 			w, reset = vfcmStopBusy(t, h, rnd)
+		case "closebusy":
+			w, reset = vfcmCloseBusy(t, h, rnd)
+		case "midcall":
+			w, reset = vfcmMidCall(t, h, rnd)
 		default:
 			w, reset = vfcmRandom(t, h, rnd)
 		}
@@ -697,12 +756,8 @@ func vfcmStopRace(t *testing.T, h int, rnd *rand.Rand) (*vfcmWorld, M) {
 func vfcmStopBusy(t *testing.T, h int, rnd *rand.Rand) (*vfcmWorld, M) {
 	w := vfcmNewWorld(t, 4, 300000, false)
 	nb := 2 + rnd.Intn(2)
-	entered := make(chan int, 8)
-	w.fs.Gate = func(op, p string) {
-		if strings.HasPrefix(p, "/g") && op == "Lstat" {
-			entered <- 1
-			time.Sleep(300 * time.Millisecond)
-		}
+	for c := 1; c <= nb; c++ {
+		w.hold[fmt.Sprintf("g%d", c)] = 300 * time.Millisecond
 	}
 	e := &vfEnv{n: w.n, srv: w.srv, h: &NFSProcedureHandler{server: w.srv}, fs: w.fs, log: &bytes.Buffer{}, xid: 50}
 	root := e.Mount(t, vfRoot)
@@ -718,19 +773,118 @@ func vfcmStopBusy(t *testing.T, h int, rnd *rand.Rand) (*vfcmWorld, M) {
 	}
 	for c := 1; c <= nb; c++ {
 		select {
-		case <-entered:
+		case <-w.entered:
 		case <-time.After(5 * time.Second):
 			t.Fatalf("stopbusy: a request did not reach the backend")
 		}
 	}
 	w.stop(1)
 	wg.Wait()
-	w.fs.Gate = nil
 	w.afterStop()
 	w.stop(2)
 	w.nfsCall(1, "close")
 	w.nfsCall(2, "close")
 	return w, vfcmReset(h, "stopbusy", w, false)
+}
+
+// closebusy: the application runs its own Server and calls Close while a request is executing in the worker pool
+// (the backend holds it for 300 ms); Close waits for the pool, so what that request allocates is released too.
+// Nothing is sent after Close has been called.
+func vfcmCloseBusy(t *testing.T, h int, rnd *rand.Rand) (*vfcmWorld, M) {
+	w := vfcmNewWorld(t, 4, 300000, false)
+	nb := 1 + rnd.Intn(2)
+	e := &vfEnv{n: w.n, srv: w.srv, h: &NFSProcedureHandler{server: w.srv}, fs: w.fs, log: &bytes.Buffer{}, xid: 50}
+	root := e.Mount(t, vfRoot)
+	hh, a, d := w.resources()
+	w.emit(M{"ev": "local.use", "handles": hh, "attr": a, "dir": d})
+	var wg sync.WaitGroup
+	for c := 1; c <= nb; c++ {
+		w.hold[fmt.Sprintf("g%d", c)] = time.Duration(250+rnd.Intn(150)) * time.Millisecond
+		cl := w.dial(c)
+		w.ping(cl, 2*time.Second)
+		wg.Add(1)
+		go func(c int, cl *vfcmClient) {
+			defer wg.Done()
+			w.lookup(cl, root, fmt.Sprintf("g%d", c))
+		}(c, cl)
+	}
+	for c := 1; c <= nb; c++ {
+		select {
+		case <-w.entered:
+		case <-time.After(5 * time.Second):
+			t.Fatalf("closebusy: a request did not reach the backend")
+		}
+	}
+	w.nfsCall(1, "close")
+	wg.Wait()
+	w.nfsCall(2, "close")
+	w.stop(1)
+	w.afterStop()
+	w.nfsCall(3, []string{"close", "unexport"}[rnd.Intn(2)])
+	return w, vfcmReset(h, "closebusy", w, false)
+}
+
+// midcall: MaxConnections 1, IdleTimeout 1 s (the cleanup pass runs every 0.5 s from Listen on). The connection is
+// used at 0.3 s, quiet for 0.8 s (not idle for longer than IdleTimeout), and at 1.1 s sends a call that the backend
+// holds for 0.8 s (shorter than IdleTimeout). While the call executes other clients keep trying to connect: the
+// connection in the middle of its call is being served, so none of them may be. (A server that measures idleness
+// from the last reply only sees 1.2 s of silence at the 1.5 s pass; one that stamps the arrival of a call would
+// need the call to overrun by more than 0.6 s before a pass could find it idle.)
+func vfcmMidCall(t *testing.T, h int, rnd *rand.Rand) (*vfcmWorld, M) {
+	w := vfcmNewWorld(t, 1, 1000, false)
+	t0 := time.Now() // Listen has just returned
+	e := &vfEnv{n: w.n, srv: w.srv, h: &NFSProcedureHandler{server: w.srv}, fs: w.fs, log: &bytes.Buffer{}, xid: 50}
+	root := e.Mount(t, vfRoot)
+	hh, a, d := w.resources()
+	w.emit(M{"ev": "local.use", "handles": hh, "attr": a, "dir": d})
+	w.hold["g1"] = 800 * time.Millisecond
+	c1 := w.dial(1)
+	w.ping(c1, 2*time.Second)
+	time.Sleep(time.Until(t0.Add(300 * time.Millisecond)))
+	w.ping(c1, 2*time.Second)
+	time.Sleep(time.Until(t0.Add(1100 * time.Millisecond)))
+	done := make(chan struct{})
+	go func() {
+		defer close(done)
+		w.lookup(c1, root, "g1")
+	}()
+	select {
+	case <-w.entered:
+	case <-time.After(3 * time.Second):
+	}
+	// keep trying for as long as the request is in the backend (whatever the client of connection 1 sees meanwhile)
+	c := 2
+	giveUp := time.After(3 * time.Second)
+loop:
+	for {
+		select {
+		case <-w.exited:
+			break loop
+		case <-giveUp:
+			break loop
+		default:
+		}
+		cl := w.dial(c)
+		if w.ping(cl, time.Second) {
+			w.ping(cl, time.Second)
+			w.ping(cl, time.Second)
+		}
+		if cl != nil {
+			w.closeClient(cl)
+			cl.dead = true
+		}
+		c++
+		if c > 10 {
+			break
+		}
+		time.Sleep(80 * time.Millisecond)
+	}
+	<-done
+	w.ping(c1, time.Second)
+	w.stop(1)
+	w.afterStop()
+	w.nfsCall(1, "close")
+	return w, vfcmReset(h, "midcall", w, false)
 }
 
 // export: the server AbsfsNFS.Export starts (raw framing); Close / Unexport must stop it, release every handle
